@@ -350,7 +350,7 @@ func runC13(seed uint64, n, t, victim int, crashes []int) c13Outcome {
 }
 
 func checkC13(c *Ctx) {
-	c.Rule = "fault enumeration: a reference run (full key generation + one signed batch, victim on real LevelDB, stepped Poll) yields the victim's sequence of durable effects (state Set/Delete/SaveOffset, board Send). For every effect index k the run is repeated with a kill before effect k (= after effect k-1): the database directory is copied as it is on disk, the old instance abandoned, and the node restarted on the copy through services.CreateServiceProviderWithCfg. Judged right after restart (offset == last saved, pending operations == pending before the kill) and at the end (every node signing-idle, same public projection, valid signature stored, offset == board length). Victim = every node, n in {2,3}; thorough adds double crashes. A live-mode part runs the real Poll() against gated decorators and checks its trace shape. The first nine effect indices of every reference run are enumerated in the quick tier too. Kills in the middle of a state write: for state-write effects (every fifth in quick, all in thorough) the restart comes up on a copy whose journal ends inside the record of that write (cut one byte short / in the middle / after a few bytes), produced with the library's default options like LevelDBState.Set. Clean stops: the victim's real Poll() loop fetches a batch of several messages and the stop (context cancel) is requested after the k-th acknowledgement; restart, then the ceremony must finish. distinct = distinct (n, victim, crash-point class) judged"
+	c.Rule = "fault enumeration: a reference run (full key generation + one signed batch, victim on real LevelDB, stepped Poll) yields the victim's sequence of durable effects (state Set/Delete/SaveOffset, board Send). For every effect index k the run is repeated with a kill before effect k (= after effect k-1): the database directory is copied as it is on disk, the old instance abandoned, and the node restarted on the copy through services.CreateServiceProviderWithCfg. Judged right after restart (offset == last saved, pending operations == pending before the kill) and at the end (every node signing-idle, same public projection, valid signature stored, offset == board length). Victim = every node, n in {2,3}; thorough adds double crashes. A live-mode part runs the real Poll() against gated decorators and checks its trace shape. The first nine effect indices of every reference run are enumerated in the quick tier too. Kills in the middle of a state write: for state-write effects (every fifth in quick, all in thorough) the restart comes up on a copy whose journal ends inside the record of that write (cut one byte short / in the middle / after a few bytes), produced with the library's default options like LevelDBState.Set. Clean stops: the victim's real Poll() loop fetches a batch of several messages and the stop (context cancel) is requested after the k-th acknowledgement; restart, then the ceremony must finish. Real process: the shipped dc4bc_d binary on a private state directory (board unreachable, progress through POST /saveOffset) is stopped with SIGTERM and killed with SIGKILL (idle, and while offsets are being saved) and restarted on the same directories; it must come up and report the last acknowledged (or in-flight) offset. distinct = distinct (n, victim, crash-point class) judged"
 	c.Assumptions = []string{"a torn journal record is produced by truncating the journal inside the record (a write(2) cut short); partial sector writes inside earlier records are not modelled", "stepped Poll performs exactly the calls of BaseNodeService.Poll; the conformance part checks that shape on the real Poll", "operators re-submit the cached result file after a crash"}
 	type job struct {
 		n, t, victim int
@@ -469,6 +469,7 @@ func checkC13(c *Ctx) {
 	c.Exhaustive = stride == 1 // every effect index of every reference run
 	pollConformance(c)
 	c13CleanStop(c)
+	c13RealDaemon(c)
 }
 
 func min(a, b int) int {
